@@ -532,6 +532,10 @@ func Settle() {
 	raceAcquire(unsafe.Pointer(&x.syncWord))
 }
 
+// SetFinalizer replaces runtime.SetFinalizer in instrumented code: a finalizer would run on the garbage
+// collector's goroutine, outside the scheduler and at an uncontrolled moment, so it is dropped.
+func SetFinalizer(obj interface{}, finalizer interface{}) {}
+
 // Spin replaces runtime.Gosched() inside spin loops: the thread is disabled until some other thread
 // has made progress, so a spin loop is a blocking wait and all-threads-spinning is a deadlock.
 //
